@@ -93,7 +93,7 @@ let udp_parse_op kv =
   Printf.sprintf "chk %s%s parse %s" (chk c)
     (if is_ok c then Printf.sprintf " acc sp=%s dp=%s len=%s ck=%s payload=%s vck=%s"
        (oz (udp_src_port bs)) (oz (udp_dst_port bs)) (oz (udp_len bs)) (oz (udp_checksum bs))
-       (ob (udp_payload bs)) (obool (udp_verify_checksum sok bs))
+       (ob (udp_payload bs)) (obool (udp_verify_checksum sok v4 bs))
      else "")
     (show_o udp_show (udp_parse sok v4 (getbool kv "rx") bs))
 
